@@ -31,6 +31,11 @@ func (c *captureGen) Generate(req *api.GenerateServiceRequest) (*api.GenerateSer
 // root services and root modules are compared as multisets, because their order
 // comes from the same arbitrary module walk that hands out the ids.
 func canonRequest(r *api.GenerateServiceRequest) (canon []string, orderKey string) {
+	return CanonRequest(r)
+}
+
+// CanonRequest is exported for the plugin world's frames-intact oracle.
+func CanonRequest(r *api.GenerateServiceRequest) (canon []string, orderKey string) {
 	if r == nil {
 		return []string{"<no request>"}, ""
 	}
